@@ -330,7 +330,7 @@ Next == \E z \in KeySet : DoLink(z) \/ DoUnlink(z) \/ DoGet(z)
 
 Spec == Init /\ [][Next]_tvars
 
-View == <<t, keys>>
+View == <<[t EXCEPT !.nold = {}, !.cold = {}], keys>>     \* the histories of the pools are kept for labels only
 
 ---------------------------------------------------------------------------
 (* Invariants                                                              *)
